@@ -67,8 +67,163 @@ func sameEvent(want, got knx.GroupEvent) bool {
 	return bytes.Equal(norm(want.Data), norm(got.Data))
 }
 
+// keptEvents: what the application received stays what it was - it keeps every event (as a value, and a private copy of
+// its data taken at once) and looks again when the run is over: later datagrams must not have changed it.
+type keptEvents struct {
+	got   []knx.GroupEvent
+	snaps [][]byte
+}
+
+func (k *keptEvents) keep(e knx.GroupEvent) {
+	k.got = append(k.got, e)
+	k.snaps = append(k.snaps, append([]byte{}, e.Data...))
+}
+
+func (k *keptEvents) check(what string) *common.Fail {
+	for i, e := range k.got {
+		if !bytes.Equal(e.Data, k.snaps[i]) {
+			return common.Failf("event-changed-later", "%s: event #%d (command %d, destination %v) carried the data %x when it was received; after the later events had arrived it reads %x", what, i, e.Command, e.Destination, k.snaps[i], e.Data)
+		}
+	}
+	return nil
+}
+
 func c12SockRun(p c12SockPlan) (*common.Fail, string) {
+	var kept keptEvents
+	f, inc := c12SockRunInner(p, &kept)
+	if f == nil {
+		f = kept.check(p.Kind)
+	}
+	return f, inc
+}
+
+// c04RawUDP: a raw tunnel (knx.NewTunnel) over a kernel UDP socket. The gateway tunnels N telegrams stop-and-wait, of
+// every cEMI kind the library knows (L_Data, L_Raw, L_Busmon and an unsupported code, by telegram number), with
+// distinct bodies. The application reads them as they come, keeps them, and compares ALL of them with what was sent
+// when the last one is in: delivered exactly once means the telegram delivered as number k is still telegram k after
+// the socket has received k+1, k+2, ...
+func c04RawUDP(p c12SockPlan) (*common.Fail, string) {
+	pc, err := net.ListenUDP("udp4", &net.UDPAddr{IP: net.IPv4(127, 0, 0, 1)})
+	if err != nil {
+		return nil, "no loopback"
+	}
+	defer pc.Close()
+	n := len(p.Events)
+	mk := func(i int) cemi.Message {
+		body := make([]byte, 10+i%9)
+		for k := range body {
+			body[k] = byte(i*17 + k*5 + 1)
+		}
+		switch i % 5 {
+		case 0:
+			return &cemi.LDataInd{LData: confLData(i)}
+		case 1:
+			b := cemi.LBusmonInd(body)
+			return &b
+		case 2:
+			return &cemi.LRawInd{LRaw: cemi.LRaw(body)}
+		case 3:
+			return &cemi.LDataCon{LData: confLData(i)}
+		}
+		return &cemi.LRawCon{LRaw: cemi.LRaw(body)}
+	}
+	enc := func(m cemi.Message) []byte {
+		b := make([]byte, cemi.Size(m))
+		cemi.Pack(b, m)
+		return b
+	}
+	acked := make(chan uint8, 64)
+	var client atomic.Pointer[net.UDPAddr]
+	connected := make(chan struct{})
+	go func() {
+		buf := make([]byte, 2048)
+		for {
+			k, from, err := pc.ReadFromUDP(buf)
+			if err != nil {
+				return
+			}
+			var s knxnet.Service
+			if _, err := knxnet.Unpack(buf[:k], &s); err != nil {
+				continue
+			}
+			switch v := s.(type) {
+			case *knxnet.ConnReq:
+				client.Store(from)
+				pc.WriteToUDP(knxnet.AllocAndPack(&knxnet.ConnRes{Channel: 9, Status: knxnet.NoError, Control: knxnet.HostInfo{Protocol: knxnet.UDP4}}), from)
+				select {
+				case <-connected:
+				default:
+					close(connected)
+				}
+			case *knxnet.ConnStateReq:
+				pc.WriteToUDP(knxnet.AllocAndPack(&knxnet.ConnStateRes{Channel: v.Channel, Status: knxnet.NoError}), from)
+			case *knxnet.DiscReq:
+				pc.WriteToUDP(knxnet.AllocAndPack(&knxnet.DiscRes{Channel: v.Channel, Status: 0}), from)
+			case *knxnet.TunnelRes:
+				select {
+				case acked <- v.SeqNumber:
+				default:
+				}
+			}
+		}
+	}()
+	tun, err := knx.NewTunnel(pc.LocalAddr().String(), knxnet.TunnelLayerBusmon, knx.TunnelConfig{ResendInterval: 200 * time.Millisecond, ResponseTimeout: 3 * time.Second})
+	if err != nil {
+		return nil, "NewTunnel: " + err.Error()
+	}
+	defer tun.Close()
+	<-connected
+	go func() {
+		from := client.Load()
+		for i := 0; i < n; i++ {
+			req := knxnet.AllocAndPack(&knxnet.TunnelReq{Channel: 9, SeqNumber: uint8(i), Payload: mk(i)})
+			req[9] = byte(p.Reserved)
+			for try := 0; try < 10; try++ {
+				pc.WriteToUDP(req, from)
+				tm := time.After(300 * time.Millisecond)
+			wait:
+				for {
+					select {
+					case sq := <-acked:
+						if sq == uint8(i) {
+							try = 99
+							break wait
+						}
+					case <-tm:
+						break wait
+					}
+				}
+			}
+		}
+	}()
+	var got []cemi.Message
+	for len(got) < n {
+		select {
+		case m, open := <-tun.Inbound():
+			if !open {
+				return common.Failf("inbound-closed", "raw tunnel over UDP: Inbound() closed after %d of %d telegrams", len(got), n), ""
+			}
+			got = append(got, m)
+			if p.PauseUs > 0 && len(got)%7 == 0 {
+				time.Sleep(time.Duration(p.PauseUs) * time.Microsecond) // a reader that falls behind now and then
+			}
+		case <-time.After(5 * time.Second):
+			return common.Failf("event-lost", "raw tunnel over UDP: telegram #%d of %d (kind %T) never surfaced", len(got), n, mk(len(got))), ""
+		}
+	}
+	for i, m := range got {
+		want := mk(i)
+		if m.MessageCode() != want.MessageCode() || !bytes.Equal(enc(m), enc(want)) {
+			return common.Failf("delivered-differs", "raw tunnel over UDP, %d telegrams acknowledged one by one: looked at after all had arrived, delivery #%d is %T %x; telegram #%d was %T %x", n, i, m, enc(m), i, want, enc(want)), ""
+		}
+	}
+	return nil, ""
+}
+
+func c12SockRunInner(p c12SockPlan, kept *keptEvents) (*common.Fail, string) {
 	switch p.Kind {
+	case "raw-udp":
+		return c04RawUDP(p)
 	case "router":
 		probeMulticast()
 		if !mcastOK {
@@ -102,6 +257,7 @@ func c12SockRun(p c12SockPlan) (*common.Fail, string) {
 				if !open {
 					return common.Failf("inbound-closed", "group router: the receiving client's Inbound() closed while event #%d was under way", i), ""
 				}
+				kept.keep(got)
 				if !sameEvent(want, got) {
 					return common.Failf("event-differs", "group router to group router: event #%d sent as %+v arrived as %+v", i, want, got), ""
 				}
@@ -202,6 +358,7 @@ func c12SockRun(p c12SockPlan) (*common.Fail, string) {
 				if !open {
 					return common.Failf("inbound-closed", "group tunnel over TCP: Inbound() closed while event #%d (of %d) was under way - the gateway had neither closed the connection nor sent anything malformed", i, len(p.Events))
 				}
+				kept.keep(got)
 				if !sameEvent(want, got) {
 					return common.Failf("event-differs", "group tunnel over TCP -> gateway -> back: event #%d sent as %+v came back as %+v", i, want, got)
 				}
@@ -494,6 +651,7 @@ func c12SockRun(p c12SockPlan) (*common.Fail, string) {
 				if !open {
 					return common.Failf("inbound-closed", "group tunnel: Inbound() closed while event #%d was under way", i), ""
 				}
+				kept.keep(got)
 				if !sameEvent(want, got) {
 					return common.Failf("event-differs", "group tunnel -> gateway -> group tunnel: event #%d sent as %+v came back as %+v", i, want, got), ""
 				}
@@ -622,6 +780,16 @@ func TestC04Sock(t *testing.T) {
 	}
 	common.Drive(t, rec, func(rt *rapid.T) c12SockPlan {
 		p := c12SockPlan{Kind: "tunnel-tcp", Reserved: rapid.SampledFrom([]int{0, 0, 1, 0x80, 0xff}).Draw(rt, "reserved-octet")}
+		if rapid.IntRange(0, 3).Draw(rt, "raw-udp") == 0 {
+			// a raw tunnel over UDP carrying every kind of cEMI message; what was delivered is looked at when all is in
+			p.Kind = "raw-udp"
+			p.Events = make([]c12Event, rapid.IntRange(5, 300).Draw(rt, "raw-telegrams"))
+			p.PauseUs = rapid.SampledFrom([]int{0, 0, 200, 2000}).Draw(rt, "reader-falls-behind")
+			rec.Class("udp raw tunnel: all cEMI kinds, deliveries compared at the end")
+			rec.NonTrivial(common.HashJSON(p))
+			rec.Sample("raw-udp", p)
+			return p
+		}
 		if rapid.Bool().Draw(rt, "duplex-udp") {
 			// UDP, both directions at once through one kernel socket: the acknowledgements of the gateway's telegrams
 			// leave while the application's requests and their repetitions do
